@@ -5,7 +5,7 @@ from __future__ import annotations
 from ..bfs import APIS, CtxCheck
 from ..ctxuniverse import KEYS, LOOKUPS, Universe
 
-BAD = ("none-value", "empty-name", "space-name", "bad-types", "bad-types-seq", "bad-td", "bad-td-multi",
+BAD = ("none-value", "empty-name", "space-name", "bad-types", "bad-types-seq", "bad-td", "bad-td-multi", "bad-td-zero", "bad-td-empty",
        "f-empty-name", "f-dot-name", "f-none-type", "f-no-types")
 
 
@@ -17,6 +17,8 @@ class C03(CtxCheck):
     id = "C03"
     aspects = {"conflict", "unchanged", "stable", "teardown"}
     max_ctx = 2
+    probe_every_step = True
+    probe_apis = ("nowait", "async", "inj_sync")
     assumptions = [
         "one context and one child; types A/B, names default/x; single and two-type registrations",
         "'observably unchanged' is judged through get_resources, all lookup APIs, resource_added listeners and the teardown callbacks that run at unwinding",
